@@ -124,6 +124,10 @@ func h5PureLoop(env *Env, c *H5Cfg, sh *h5Shared, rate func(time.Time) int) {
 	}
 }
 
+func (sh *h5Shared) logInner(env *Env, t time.Time, v int) {
+	sh.inner = append(sh.inner, h5Call{CallNs: env.Sim.Now(), ArgNs: int64(t.Sub(simrt.Epoch)), V: v, Seq: env.Sim.Step()})
+}
+
 func (sh *h5Shared) logOuter(env *Env, t time.Time, v int) {
 	sh.outer = append(sh.outer, h5Call{CallNs: env.Sim.Now(), ArgNs: int64(t.Sub(simrt.Epoch)), V: v, Seq: env.Sim.Step()})
 }
@@ -226,7 +230,8 @@ func (h5) Describe(cfg any) string {
 func (h5) Gen(prop, tier string, r *simrt.Rng) (any, simrt.Config) {
 	c := &H5Cfg{Concurrency: 1 + r.Intn(4), Dist: "none"}
 	thorough := tier == "thorough"
-	kind := map[string]string{"C10": simrt.Pick(r, "staged", "staged", "ramp"), "C11": "gaussian", "C12": "dist", "C13": "jitter"}[prop]
+	kind := map[string]string{"C10": simrt.Pick(r, "staged", "staged", "ramp"), "C11": "gaussian", "C12": "dist",
+		"C13": simrt.Pick(r, "jitter", "jitter", "staged", "ramp", "gaussian")}[prop]
 	if kind == "" {
 		kind = simrt.Pick(r, "staged", "ramp", "dist", "jitter", "gaussian")
 	}
@@ -301,7 +306,14 @@ func (h5) Gen(prop, tier string, r *simrt.Rng) (any, simrt.Config) {
 		c.Volume = float64(simrt.Pick(r, 10, 37, 100, 500, 2000, 5000))
 		if r.Intn(2) == 0 {
 			for i, n := 0, 1+r.Intn(7); i < n; i++ {
-				c.Weights = append(c.Weights, simrt.Pick(r, 0.5, 1, 1, 1.5, 2, 0.25, 3))
+				c.Weights = append(c.Weights, simrt.Pick(r, 0.5, 1, 1, 1.5, 2, 0.25, 3, 0, 0))
+			}
+			pos := false
+			for _, w := range c.Weights {
+				pos = pos || w > 0
+			}
+			if !pos {
+				c.Weights[r.Intn(len(c.Weights))] = 1 // a mean weight of zero is not a meaningful configuration
 			}
 		}
 		nwin := int64(2 + r.Intn(2))
@@ -359,6 +371,15 @@ func (h5) Gen(prop, tier string, r *simrt.Rng) (any, simrt.Config) {
 		}
 		ticks := int64(10 + r.Intn(maxTicks))
 		c.RunNs = ticks*c.FreqMs*ms + odd(r)
+	}
+	if prop == "C13" && c.Kind != "jitter" {
+		// jitter applied the way the trigger builders apply it (around the mode's own rate function)
+		c.Jitter = simrt.Pick(r, 1.0, 10, 25, 50, 75, 90, 99)
+		c.Dist = "none"
+		c.Direct = true
+		if c.Kind == "gaussian" {
+			c.Volume = float64(simrt.Pick(r, 500, 5000, 50000))
+		}
 	}
 	if r.Intn(2) == 0 && c.Kind != "gaussian" {
 		// slow iterations: a backlog builds up, ticks supersede it (checked against the reference pool)
@@ -447,6 +468,12 @@ func (h h5) Run(env *Env, cfg any) {
 		return
 	}
 	h5Cadence(env, c, sh, stats)
+	if c.Jitter > 0 && c.Kind != "jitter" && c.Kind != "dist" {
+		if c.Dist == "none" {
+			h5Jitter(env, c, sh)
+		}
+		return
+	}
 	switch c.Kind {
 	case "staged", "ramp":
 		h5Shape(env, c, sh)
@@ -842,6 +869,9 @@ func h5Jitter(env *Env, c *H5Cfg, sh *h5Shared) {
 	rmax := 0.0
 	for _, v := range c.Rates {
 		rmax = math.Max(rmax, float64(v))
+	}
+	for _, v := range sh.inner {
+		rmax = math.Max(rmax, float64(v.V))
 	}
 	bound := (q*rmax + 0.5) / (1 - q)
 	var R, O float64
